@@ -31,6 +31,8 @@ func Rig() *kernel.Rig {
 	// the application keeps caches alive per replica: recycle workers
 	r.RunsPerProcess = 1500
 	r.RunTimeout = 300 * time.Second
+	// the fast-sync runs add about a fifth to the thorough tier's CPU time
+	r.ThoroughBudget = 20 * time.Minute
 	// VERIF_C03_PART=fastsync|votes forces one part (diagnostics, the part's own
 	// determinism runs); unset, the part is a function of the tape alone
 	force := os.Getenv("VERIF_C03_PART")
